@@ -231,3 +231,166 @@ theorem parentsOK_run (ops : List Op) : ∀ h, ParentsOK h → ParentsOK (run h 
   | cons o os ih => intro h H; exact ih _ (parentsOK_step o H)
 
 end AslProofs.XmlOwn
+
+/-! ## a destroyed node has count zero and owns nothing -/
+namespace AslProofs.XmlOwn
+open AslModel.XmlOwn
+
+/-- a destroyed (or never allocated) node has count zero and owns nothing: `~_Xml` runs only on a count that reached
+    zero, empties the child array, and nothing ever raises the count of a dead node again -/
+def DeadOK (h : Heap) : Prop :=
+  ∀ n, (h.node n).live = false → (h.node n).rc = 0 ∧ (h.node n).kids = []
+
+theorem deadOK_init : DeadOK Heap.init := by
+  intro n _; simp [Heap.init]
+
+theorem deadOK_upd_live {h : Heap} {n : Nat} {f : NodeRec → NodeRec} (hl : (f (h.node n)).live = true)
+    (H : DeadOK h) : DeadOK (upd h n f) := by
+  intro i hi
+  simp only [upd] at hi ⊢
+  by_cases hin : i = n
+  · subst hin; simp only [if_true] at hi; rw [hl] at hi; cases hi
+  · simp only [if_neg hin] at hi ⊢; exact H i hi
+
+theorem deadOK_upd_parent {h : Heap} {n : Nat} {f : NodeRec → NodeRec}
+    (hf : ∀ r, (f r).live = r.live ∧ (f r).rc = r.rc ∧ (f r).kids = r.kids) (H : DeadOK h) : DeadOK (upd h n f) := by
+  intro i hi
+  simp only [upd] at hi ⊢
+  by_cases hin : i = n
+  · simp only [if_pos hin] at hi ⊢
+    rw [(hf _).1] at hi; rw [(hf _).2.1, (hf _).2.2]; exact H i hi
+  · simp only [if_neg hin] at hi ⊢; exact H i hi
+
+theorem deadOK_emptyKids {h : Heap} (x : Nat) (alive : Bool)
+    (hx : (h.node x).rc = 0 ∨ (alive = true ∧ (h.node x).live = true)) (H : DeadOK h) :
+    DeadOK (emptyKids h x alive) := by
+  intro i hi
+  simp only [emptyKids] at hi ⊢
+  by_cases hix : i = x
+  · simp only [if_pos hix] at hi ⊢
+    rw [hix] at hi
+    refine ⟨?_, trivial⟩
+    rw [hix]
+    rcases hx with h0 | ⟨ha, hl⟩
+    · exact h0
+    · simp [ha, hl] at hi
+  · simp only [if_neg hix] at hi ⊢
+    split at hi
+    · rename_i hc; simp only [if_pos hc] at ⊢; exact H i hi
+    · rename_i hc; simp only [if_neg hc] at ⊢; exact H i hi
+
+theorem deadOK_release (fuel : Nat) : ∀ (pending : List Nat) (h : Heap), DeadOK h →
+    DeadOK (release fuel pending h) := by
+  induction fuel with
+  | zero => intro pending h H; exact H
+  | succ f ih =>
+    intro pending h H
+    cases pending with
+    | nil => exact H
+    | cons n rest =>
+      simp only [release]
+      split
+      · exact H
+      · rename_i hg
+        simp only [Bool.or_eq_true, Bool.not_eq_true', decide_eq_true_eq, not_or, Bool.not_eq_false] at hg
+        have hl : (h.node n).live = true := hg.1
+        split
+        · apply ih
+          apply deadOK_emptyKids
+          · left; simp [setRc, upd]
+          · exact deadOK_upd_live (by exact hl) H
+        · exact ih _ _ (deadOK_upd_live (by exact hl) H)
+
+theorem deadOK_setVar {h : Heap} (v : Nat) (t : Option Nat) (H : DeadOK h) : DeadOK (setVar h v t) := by
+  unfold setVar
+  have H1 : DeadOK (match t with
+    | some n => if (h.node n).live then setRc h n ((h.node n).rc + 1) else setFault h
+    | none => h) := by
+    cases t with
+    | none => exact H
+    | some n =>
+      simp only
+      split
+      · rename_i hl; exact deadOK_upd_live (by exact hl) H
+      · exact H
+  simp only
+  split
+  · exact deadOK_release _ _ _ H1
+  · exact H1
+
+theorem deadOK_alloc {h : Heap} (H : DeadOK h) : DeadOK (alloc h).1 := by
+  intro i hi
+  simp only [alloc] at hi ⊢
+  by_cases hin : i = h.next
+  · simp [hin] at hi
+  · simp only [if_neg hin] at hi ⊢; exact H i hi
+
+theorem deadOK_attach {h : Heap} (p c : Nat) (H : DeadOK h) : DeadOK (attach h p c) := by
+  unfold attach
+  split
+  · rename_i hg
+    simp only [Bool.and_eq_true, decide_eq_true_eq] at hg
+    obtain ⟨⟨_, hpl⟩, hcl⟩ := hg
+    apply deadOK_upd_live
+    · simp only [upd]; split <;> exact hcl
+    · exact deadOK_upd_live (by exact hpl) H
+  · exact H
+
+theorem deadOK_detachAt {h : Heap} (p j : Nat) (H : DeadOK h) : DeadOK (detachAt h p j) := by
+  unfold detachAt
+  split
+  · exact H
+  · split
+    · rename_i hl
+      apply deadOK_release
+      apply deadOK_upd_live
+      · simp only [upd]; split <;> exact hl
+      · exact deadOK_upd_parent (fun r => ⟨rfl, rfl, rfl⟩) H
+    · exact H
+
+theorem deadOK_clearKids {h : Heap} (p : Nat) (H : DeadOK h) : DeadOK (clearKids h p) := by
+  unfold clearKids
+  split
+  · rename_i hl
+    exact deadOK_release _ _ _ (deadOK_emptyKids p true (Or.inr ⟨rfl, hl⟩) H)
+  · exact H
+
+theorem deadOK_step {h : Heap} (o : Op) (H : DeadOK h) : DeadOK (step h o) := by
+  cases o with
+  | new v => exact deadOK_setVar _ _ (deadOK_alloc H)
+  | append v w =>
+    simp only [step]; split
+    · exact deadOK_attach _ _ H
+    · exact H
+  | remove v j =>
+    simp only [step]; split
+    · split
+      · exact H
+      · exact deadOK_detachAt _ _ H
+    · exact H
+  | clear v =>
+    simp only [step]; split
+    · exact deadOK_clearKids _ H
+    · exact H
+  | child v w j =>
+    simp only [step]; split
+    · split
+      · exact deadOK_setVar _ _ H
+      · exact H
+    · exact H
+  | assign v w =>
+    simp only [step]; split
+    · exact deadOK_setVar _ _ H
+    · exact H
+  | drop v => exact deadOK_setVar _ _ H
+  | up v w =>
+    simp only [step]; split
+    · exact deadOK_setVar _ _ H
+    · exact H
+
+theorem deadOK_run (ops : List Op) : ∀ h, DeadOK h → DeadOK (run h ops) := by
+  induction ops with
+  | nil => intro h H; exact H
+  | cons o os ih => intro h H; exact ih _ (deadOK_step o H)
+
+end AslProofs.XmlOwn
